@@ -74,3 +74,44 @@ func VerifC08_AnnounceBursts() {
 	}
 	verif_Assert(okA == 2 && okB == 1, "the notifications account for every reported block exactly once")
 }
+
+// C08: an explicit sync of a publisher racing with an announce-triggered sync
+// of the same publisher: the two syncs are serialised and each block-hook call
+// goes to the hook of the sync it belongs to.
+func VerifC08_ExplicitDuringAnnounced() {
+	chain := []cid.Cid{vCid(11), vCid(12)}
+	v := newLiveSub(chain, 0)
+	v.sy.yield = true
+	var general, scoped []cid.Cid
+	inner := v.s.generalBlockHook
+	v.s.generalBlockHook = func(p peer.ID, c cid.Cid, a SegmentSyncActions) {
+		general = append(general, c)
+		inner(p, c, a)
+	}
+	evch, _ := v.s.OnSyncFinished()
+	verif_Assume(v.s.Announce(context.Background(), chain[0], v.peer) == nil)
+	got, err := v.s.SyncAdChain(context.Background(), v.peer, ScopedBlockHook(func(p peer.ID, c cid.Cid, a SegmentSyncActions) {
+		scoped = append(scoped, c)
+		inner(p, c, a)
+	}))
+	verif_Assert(err == nil && got == chain[0], "the explicit sync succeeds")
+	verif_Quiesce()
+	verif_Reach("quiescent")
+	verif_Assert(v.sy.maxActive <= 1, "at most one sync at a time per publisher")
+	verif_Assert(v.latest() == chain[0], "latest-synced equals the head")
+	verif_Assert(v.s.Close() == nil, "Close succeeds")
+	total := 0
+	for e := range evch {
+		verif_Assert(e.Err == nil, "no failure in a fault-free run")
+		total += e.Count
+	}
+	// each sync reported its blocks to its own hook, newest to oldest, nothing lost or misrouted
+	verif_Assert(total == len(general)+len(scoped), "the notifications count exactly the blocks handed to the hooks of their own syncs")
+	for _, log := range [][]cid.Cid{general, scoped} {
+		verif_Assert(len(log) == 0 || len(log) == 2, "a sync reports its whole segment or, if the other sync got there first, nothing")
+		if len(log) == 2 {
+			verif_Assert(log[0] == chain[0] && log[1] == chain[1], "blocks of one sync are reported in order to that sync's hook")
+		}
+	}
+	verif_Assert(len(general)+len(scoped) >= 2, "every advertisement was reported")
+}
